@@ -124,141 +124,150 @@ def main():
         res.count(f"elem:{et}")
         coefs = [("1", lambda x, y, z: 1.0 + 0 * x), ("1+x", lambda x, y, z: 1.0 + x), ("2+xy-z", lambda x, y, z: 2.0 + x * y - z)]
         for mt in (MatrixType.rigi, MatrixType.mass):
-            # ---------- scalar field ----------
-            fld = Field(g, 1, mt)
-            ident = dict(elemType=et, matrixType=str(mt), dof_n=1)
-            checks = [("u*v vs UV", BiLinearForm(lambda u, v: u * v), Operators.Bilinear.UV(g, 1.0, 1, mt)),
-                      ("grad.grad vs GradUGradV", BiLinearForm(lambda u, v: 2.5 * u.grad.dot(v.grad)), Operators.Bilinear.GradUGradV(g, 2.5, mt))]
-            Ans = np.array([[2.0, 0.5, 0.25], [-0.25, 1.5, 0.0], [0.75, 0.125, 1.0]])[:dim, :dim]
-            checks.append(("grad.A.grad vs GradU_A_GradV (A not symmetric)", BiLinearForm(lambda u, v: (u.grad @ Ans).dot(v.grad)), Operators.Bilinear.GradU_A_GradV(g, Ans, 1.0, mt)))
-            for nm, form, builtin in checks:
-                res.case((et, str(mt), nm))
-                try:
-                    got = squeeze(form.Integrate_e(fld))
-                except Exception as ex:  # noqa: BLE001
-                    res.fail(f"form raises '{nm}'", f"{type(ex).__name__}: {str(ex)[:150]}", ident)
-                    continue
-                want = np.asarray(builtin)
-                if got.shape != want.shape or np.abs(got - want).max() > 1e-10 * (1 + np.abs(want).max()):
-                    res.fail(f"user form differs from built-in: {nm}", f"max difference {np.abs(got - want).max() if got.shape == want.shape else 'shape ' + str(got.shape)} on {et}", ident)
-            lf = LinearForm(lambda v: 3.0 * v)
-            res.case((et, str(mt), "linear"))
-            gotF = np.asarray(lf.Integrate_e(fld))[..., 0]
-            wantF = np.asarray(Operators.Linear.V(g, 3.0, 1, mt))
-            if np.abs(gotF - wantF.reshape(gotF.shape)).max() > 1e-10 * (1 + np.abs(wantF).max()):
-                res.fail("user linear form differs from built-in: f*v vs Linear.V", f"max difference {np.abs(gotF - wantF.reshape(gotF.shape)).max()} on {et}", ident)
-            # random grammar forms, scalar
-            for _ in range(2 if not thorough else 4):
-                cname, coef = rng.choice(coefs)
-                pool = [("uv", None), ("gradgrad", None), ("advect", [rng.randint(-2, 2), rng.randint(1, 3), rng.randint(-2, 2)]), ("gradAgrad", Ans.tolist())]
-                terms = rng.sample(pool, rng.randint(1, 3))
-                res.case((et, str(mt), "grammar-scalar", tuple(t[0] for t in terms), cname))
-                try:
-                    got = squeeze(user_form(1, terms, coef).Integrate_e(fld))
-                except Exception as ex:  # noqa: BLE001
-                    res.fail("grammar form raises (scalar)", f"{type(ex).__name__}: {str(ex)[:150]}", dict(ident, terms=[t[0] for t in terms], coef=cname))
-                    continue
-                want = independent(g, mt, 1, terms, coef)
-                if np.abs(got - want).max() > 1e-10 * (1 + np.abs(want).max()):
-                    res.fail(f"grammar form differs (scalar) terms={'+'.join(t[0] for t in terms)}", f"max difference {np.abs(got - want).max():.2e} on {et} with coefficient {cname}", dict(ident, terms=[t[0] for t in terms], coef=cname))
-            # ---------- vector field ----------
-            if dim >= 2 and g.nPe <= 15 and not (g.nPe > 10 and mt == MatrixType.mass):
-                fldv = Field(g, dim, mt)
-                ident = dict(elemType=et, matrixType=str(mt), dof_n=dim)
-                lam, mu = 1.25, 0.75
-                law = Models.Elastic.Isotropic(dim, E=mu * (3 * lam + 2 * mu) / (lam + mu), v=lam / (2 * (lam + mu)), planeStress=False)
-                eye = np.eye(dim)
-                elast = BiLinearForm(lambda u, v: (2 * mu * Sym_Grad(u) + lam * Trace(Sym_Grad(u)) * eye).ddot(Sym_Grad(v)))
-                checks = [("u.v vs UV", BiLinearForm(lambda u, v: u.dot(v)), Operators.Bilinear.UV(g, 1.0, dim, mt)),
-                          ("isotropic elasticity vs LinearizedElasticity", elast, Operators.Bilinear.LinearizedElasticity(g, law.C, mt))]
+            try:
+                # ---------- scalar field ----------
+                fld = Field(g, 1, mt)
+                ident = dict(elemType=et, matrixType=str(mt), dof_n=1)
+                checks = [("u*v vs UV", BiLinearForm(lambda u, v: u * v), Operators.Bilinear.UV(g, 1.0, 1, mt)),
+                          ("grad.grad vs GradUGradV", BiLinearForm(lambda u, v: 2.5 * u.grad.dot(v.grad)), Operators.Bilinear.GradUGradV(g, 2.5, mt))]
+                Ans = np.array([[2.0, 0.5, 0.25], [-0.25, 1.5, 0.0], [0.75, 0.125, 1.0]])[:dim, :dim]
+                checks.append(("grad.A.grad vs GradU_A_GradV (A not symmetric)", BiLinearForm(lambda u, v: (u.grad @ Ans).dot(v.grad)), Operators.Bilinear.GradU_A_GradV(g, Ans, 1.0, mt)))
                 for nm, form, builtin in checks:
                     res.case((et, str(mt), nm))
                     try:
-                        got = squeeze(form.Integrate_e(fldv))
+                        got = squeeze(form.Integrate_e(fld))
                     except Exception as ex:  # noqa: BLE001
                         res.fail(f"form raises '{nm}'", f"{type(ex).__name__}: {str(ex)[:150]}", ident)
                         continue
                     want = np.asarray(builtin)
-                    if got.shape != want.shape or np.abs(got - want).max() > 1e-9 * (1 + np.abs(want).max()):
+                    if got.shape != want.shape or np.abs(got - want).max() > 1e-10 * (1 + np.abs(want).max()):
                         res.fail(f"user form differs from built-in: {nm}", f"max difference {np.abs(got - want).max() if got.shape == want.shape else 'shape ' + str(got.shape)} on {et}", ident)
-                lfv = LinearForm(lambda v: v.dot(np.arange(1, dim + 1) * 0.5))
-                gotF = np.asarray(lfv.Integrate_e(fldv))[..., 0]
-                Nn = g.nPe
-                wantF = np.zeros_like(gotF)
-                base = np.asarray(Operators.Linear.V(g, 1.0, 1, mt)).reshape(g.Ne, Nn)
-                for d in range(dim):
-                    wantF[:, d::dim] = base * 0.5 * (d + 1)
-                res.case((et, str(mt), "linear-vector"))
-                if np.abs(gotF - wantF).max() > 1e-10 * (1 + np.abs(wantF).max()):
-                    res.fail("user linear form differs: f.v (vector)", f"max difference {np.abs(gotF - wantF).max()} on {et}", ident)
+                lf = LinearForm(lambda v: 3.0 * v)
+                res.case((et, str(mt), "linear"))
+                gotF = np.asarray(lf.Integrate_e(fld))[..., 0]
+                wantF = np.asarray(Operators.Linear.V(g, 3.0, 1, mt))
+                if np.abs(gotF - wantF.reshape(gotF.shape)).max() > 1e-10 * (1 + np.abs(wantF).max()):
+                    res.fail("user linear form differs from built-in: f*v vs Linear.V", f"max difference {np.abs(gotF - wantF.reshape(gotF.shape)).max()} on {et}", ident)
+                # random grammar forms, scalar
                 for _ in range(2 if not thorough else 4):
                     cname, coef = rng.choice(coefs)
-                    pool = [("uv", None), ("gradgrad", None), ("gradgradT", None), ("divdiv", None), ("symsym", None)]
+                    pool = [("uv", None), ("gradgrad", None), ("advect", [rng.randint(-2, 2), rng.randint(1, 3), rng.randint(-2, 2)]), ("gradAgrad", Ans.tolist())]
                     terms = rng.sample(pool, rng.randint(1, 3))
-                    res.case((et, str(mt), "grammar-vector", tuple(t[0] for t in terms), cname))
+                    res.case((et, str(mt), "grammar-scalar", tuple(t[0] for t in terms), cname))
                     try:
-                        got = squeeze(user_form(dim, terms, coef).Integrate_e(fldv))
+                        got = squeeze(user_form(1, terms, coef).Integrate_e(fld))
                     except Exception as ex:  # noqa: BLE001
-                        res.fail("grammar form raises (vector)", f"{type(ex).__name__}: {str(ex)[:150]}", dict(ident, terms=[t[0] for t in terms], coef=cname))
+                        res.fail("grammar form raises (scalar)", f"{type(ex).__name__}: {str(ex)[:150]}", dict(ident, terms=[t[0] for t in terms], coef=cname))
                         continue
-                    want = independent(g, mt, dim, terms, coef)
+                    want = independent(g, mt, 1, terms, coef)
                     if np.abs(got - want).max() > 1e-10 * (1 + np.abs(want).max()):
-                        res.fail(f"grammar form differs (vector) terms={'+'.join(t[0] for t in terms)}", f"max difference {np.abs(got - want).max():.2e} on {et} with coefficient {cname}", dict(ident, terms=[t[0] for t in terms], coef=cname))
-                # Assemble = scatter-add
-                if mt == MatrixType.rigi:
-                    Ke = squeeze(elast.Integrate_e(fldv))
-                    Ksp = np.asarray(elast.Assemble(fldv).todense())
-                    dense = np.zeros_like(Ksp)
-                    asm = np.asarray(g.Get_assembly_e(dim))
-                    for e in range(g.Ne):
-                        dense[np.ix_(asm[e], asm[e])] += Ke[e]
-                    res.case((et, "assemble"))
-                    if np.abs(dense - Ksp).max() > 1e-10 * (1 + np.abs(dense).max()):
-                        res.fail("Assemble is not the scatter-add", f"max difference {np.abs(dense - Ksp).max():.2e} on {et}", ident)
-            # ---------- evaluating a field, then using it again in a form ----------
-            if mt == MatrixType.rigi and dim >= 2 and g.nPe <= 15:
-                fe = Field(g, dim, mt)
-                X = mesh.coord
-                Gs = np.array([[0.5, 0.25, -0.125], [0.25, -0.75, 0.375], [-0.125, 0.375, 1.0]])[:dim, :dim]   # symmetric gradient
-                dofs = (np.array([1.0, -2.0, 0.5])[:dim] + X[:, :dim] @ Gs.T).ravel()
-                ident = dict(elemType=et, matrixType=str(mt), what="Field.Evaluate_e / Interpolate")
-                form = BiLinearForm(lambda u, v: Sym_Grad(u).ddot(Sym_Grad(v)))
-                fresh = squeeze(form.Integrate_e(Field(g, dim, mt)))
-                for mean in (True, False):
-                    res.case((et, "evaluate", mean))
-                    try:
-                        ge = np.asarray(fe.Evaluate_e(lambda f: f.grad, dofs, returnMeanValues=mean))
-                    except Exception as ex:  # noqa: BLE001
-                        res.fail("Field.Evaluate_e raises", f"{type(ex).__name__}: {str(ex)[:150]}", ident)
-                        continue
-                    if np.abs(ge.reshape(-1, dim, dim) - Gs).max() > 1e-9:
-                        res.fail("Field.Evaluate_e gradient", f"gradient of a linear field evaluated through Field.Evaluate_e (mean={mean}) is not the constant gradient", ident)
-                    # the field must be usable in a form afterwards: same matrix as a fresh field
-                    again = squeeze(form.Integrate_e(fe))
-                    if again.shape != fresh.shape or np.abs(again - fresh).max() > 1e-12 * (1 + np.abs(fresh).max()):
-                        res.fail("field unusable in a form after Evaluate_e", f"after Evaluate_e(returnMeanValues={mean}) the same field integrates ε(u):ε(v) to a matrix differing by {np.abs(again - fresh).max() if again.shape == fresh.shape else 'shape'} from a fresh field", ident)
-                _, _, _, Xg = basis_data(g, mt)
-                vals = np.asarray(fe.Interpolate(dofs))
-                want = np.array([1.0, -2.0, 0.5])[:dim] + Xg[..., :dim] @ Gs.T
-                res.case((et, "interpolate"))
-                if np.abs(vals - want).max() > 1e-9:
-                    res.fail("Field.Interpolate", "a linear field interpolated at the Gauss points is not its value there", ident)
+                        res.fail(f"grammar form differs (scalar) terms={'+'.join(t[0] for t in terms)}", f"max difference {np.abs(got - want).max():.2e} on {et} with coefficient {cname}", dict(ident, terms=[t[0] for t in terms], coef=cname))
+                # ---------- vector field ----------
+                if dim >= 2 and g.nPe <= 15 and not (g.nPe > 10 and mt == MatrixType.mass):
+                    fldv = Field(g, dim, mt)
+                    ident = dict(elemType=et, matrixType=str(mt), dof_n=dim)
+                    lam, mu = 1.25, 0.75
+                    law = Models.Elastic.Isotropic(dim, E=mu * (3 * lam + 2 * mu) / (lam + mu), v=lam / (2 * (lam + mu)), planeStress=False)
+                    eye = np.eye(dim)
+                    elast = BiLinearForm(lambda u, v: (2 * mu * Sym_Grad(u) + lam * Trace(Sym_Grad(u)) * eye).ddot(Sym_Grad(v)))
+                    checks = [("u.v vs UV", BiLinearForm(lambda u, v: u.dot(v)), Operators.Bilinear.UV(g, 1.0, dim, mt)),
+                              ("isotropic elasticity vs LinearizedElasticity", elast, Operators.Bilinear.LinearizedElasticity(g, law.C, mt))]
+                    for nm, form, builtin in checks:
+                        res.case((et, str(mt), nm))
+                        try:
+                            got = squeeze(form.Integrate_e(fldv))
+                        except Exception as ex:  # noqa: BLE001
+                            res.fail(f"form raises '{nm}'", f"{type(ex).__name__}: {str(ex)[:150]}", ident)
+                            continue
+                        want = np.asarray(builtin)
+                        if got.shape != want.shape or np.abs(got - want).max() > 1e-9 * (1 + np.abs(want).max()):
+                            res.fail(f"user form differs from built-in: {nm}", f"max difference {np.abs(got - want).max() if got.shape == want.shape else 'shape ' + str(got.shape)} on {et}", ident)
+                    lfv = LinearForm(lambda v: v.dot(np.arange(1, dim + 1) * 0.5))
+                    gotF = np.asarray(lfv.Integrate_e(fldv))[..., 0]
+                    Nn = g.nPe
+                    wantF = np.zeros_like(gotF)
+                    base = np.asarray(Operators.Linear.V(g, 1.0, 1, mt)).reshape(g.Ne, Nn)
+                    for d in range(dim):
+                        wantF[:, d::dim] = base * 0.5 * (d + 1)
+                    res.case((et, str(mt), "linear-vector"))
+                    if np.abs(gotF - wantF).max() > 1e-10 * (1 + np.abs(wantF).max()):
+                        res.fail("user linear form differs: f.v (vector)", f"max difference {np.abs(gotF - wantF).max()} on {et}", ident)
+                    for _ in range(2 if not thorough else 4):
+                        cname, coef = rng.choice(coefs)
+                        pool = [("uv", None), ("gradgrad", None), ("gradgradT", None), ("divdiv", None), ("symsym", None)]
+                        terms = rng.sample(pool, rng.randint(1, 3))
+                        res.case((et, str(mt), "grammar-vector", tuple(t[0] for t in terms), cname))
+                        try:
+                            got = squeeze(user_form(dim, terms, coef).Integrate_e(fldv))
+                        except Exception as ex:  # noqa: BLE001
+                            res.fail("grammar form raises (vector)", f"{type(ex).__name__}: {str(ex)[:150]}", dict(ident, terms=[t[0] for t in terms], coef=cname))
+                            continue
+                        want = independent(g, mt, dim, terms, coef)
+                        if np.abs(got - want).max() > 1e-10 * (1 + np.abs(want).max()):
+                            res.fail(f"grammar form differs (vector) terms={'+'.join(t[0] for t in terms)}", f"max difference {np.abs(got - want).max():.2e} on {et} with coefficient {cname}", dict(ident, terms=[t[0] for t in terms], coef=cname))
+                    # Assemble = scatter-add
+                    if mt == MatrixType.rigi:
+                        Ke = squeeze(elast.Integrate_e(fldv))
+                        Ksp = np.asarray(elast.Assemble(fldv).todense())
+                        dense = np.zeros_like(Ksp)
+                        asm = np.asarray(g.Get_assembly_e(dim))
+                        for e in range(g.Ne):
+                            dense[np.ix_(asm[e], asm[e])] += Ke[e]
+                        res.case((et, "assemble"))
+                        if np.abs(dense - Ksp).max() > 1e-10 * (1 + np.abs(dense).max()):
+                            res.fail("Assemble is not the scatter-add", f"max difference {np.abs(dense - Ksp).max():.2e} on {et}", ident)
+                # ---------- evaluating a field, then using it again in a form ----------
+                if mt == MatrixType.rigi and dim >= 2 and g.nPe <= 15:
+                    fe = Field(g, dim, mt)
+                    X = mesh.coord
+                    Gs = np.array([[0.5, 0.25, -0.125], [0.25, -0.75, 0.375], [-0.125, 0.375, 1.0]])[:dim, :dim]   # symmetric gradient
+                    dofs = (np.array([1.0, -2.0, 0.5])[:dim] + X[:, :dim] @ Gs.T).ravel()
+                    ident = dict(elemType=et, matrixType=str(mt), what="Field.Evaluate_e / Interpolate")
+                    form = BiLinearForm(lambda u, v: Sym_Grad(u).ddot(Sym_Grad(v)))
+                    fresh = squeeze(form.Integrate_e(Field(g, dim, mt)))
+                    for mean in (True, False):
+                        res.case((et, "evaluate", mean))
+                        try:
+                            ge = np.asarray(fe.Evaluate_e(lambda f: f.grad, dofs, returnMeanValues=mean))
+                        except Exception as ex:  # noqa: BLE001
+                            res.fail("Field.Evaluate_e raises", f"{type(ex).__name__}: {str(ex)[:150]}", ident)
+                            continue
+                        if np.abs(ge.reshape(-1, dim, dim) - Gs).max() > 1e-9:
+                            res.fail("Field.Evaluate_e gradient", f"gradient of a linear field evaluated through Field.Evaluate_e (mean={mean}) is not the constant gradient", ident)
+                        # the field must be usable in a form afterwards: same matrix as a fresh field
+                        again = squeeze(form.Integrate_e(fe))
+                        if again.shape != fresh.shape or np.abs(again - fresh).max() > 1e-12 * (1 + np.abs(fresh).max()):
+                            res.fail("field unusable in a form after Evaluate_e", f"after Evaluate_e(returnMeanValues={mean}) the same field integrates ε(u):ε(v) to a matrix differing by {np.abs(again - fresh).max() if again.shape == fresh.shape else 'shape'} from a fresh field", ident)
+                    _, _, _, Xg = basis_data(g, mt)
+                    vals = np.asarray(fe.Interpolate(dofs))
+                    want = np.array([1.0, -2.0, 0.5])[:dim] + Xg[..., :dim] @ Gs.T
+                    res.case((et, "interpolate"))
+                    if np.abs(vals - want).max() > 1e-9:
+                        res.fail("Field.Interpolate", "a linear field interpolated at the Gauss points is not its value there", ident)
 
-            # ---------- correspondence ----------
-            if et in small and mt == MatrixType.rigi:
-                N, dN, wJ, _ = basis_data(g, mt)
-                e = rng.randrange(g.Ne)
-                fld1 = Field(g, 1, mt)
-                real_uv = squeeze(BiLinearForm(lambda u, v: u * v).Integrate_e(fld1))[e]
-                lines.append(f"uv {N.shape[0]} {N.shape[1]} 1 | " + " ".join(fs(v) for v in wJ[e]) + " | " + " ".join(fs(v) for v in N.ravel()))
-                expect.append((real_uv, dict(elemType=et, form="u*v", element=e)))
-                real_gg = squeeze(BiLinearForm(lambda u, v: u.grad.dot(v.grad)).Integrate_e(fld1))[e]
-                lines.append(f"gg {N.shape[0]} {N.shape[1]} 1 {dim} | " + " ".join(fs(v) for v in wJ[e]) + " | " + " ".join(fs(v) for v in dN[e].ravel()))
-                expect.append((real_gg, dict(elemType=et, form="grad.grad", element=e)))
-                if dim >= 2 and et in ("TRI3", "QUAD4", "TETRA4"):
-                    real_iso = squeeze(elast.Integrate_e(Field(g, dim, mt)))[e]
-                    lines.append(f"iso {N.shape[0]} {N.shape[1]} {dim} {fs(lam)} {fs(mu)} | " + " ".join(fs(v) for v in wJ[e]) + " | " + " ".join(fs(v) for v in dN[e].ravel()))
-                    expect.append((real_iso, dict(elemType=et, form="isotropic elasticity", element=e)))
+                # ---------- correspondence ----------
+                if et in small and mt == MatrixType.rigi:
+                    N, dN, wJ, _ = basis_data(g, mt)
+                    e = rng.randrange(g.Ne)
+                    fld1 = Field(g, 1, mt)
+                    try:
+                        real_uv = squeeze(BiLinearForm(lambda u, v: u * v).Integrate_e(fld1))[e]
+                        BiLinearForm(lambda u, v: u.grad.dot(v.grad)).Integrate_e(fld1)
+                    except Exception as ex:  # noqa: BLE001
+                        res.fail("form raises 'u*v' on a field with a non-default quadrature", f"{type(ex).__name__}: {str(ex)[:150]}", dict(elemType=et, matrixType=str(mt), dof_n=1))
+                        continue
+                    lines.append(f"uv {N.shape[0]} {N.shape[1]} 1 | " + " ".join(fs(v) for v in wJ[e]) + " | " + " ".join(fs(v) for v in N.ravel()))
+                    expect.append((real_uv, dict(elemType=et, form="u*v", element=e)))
+                    real_gg = squeeze(BiLinearForm(lambda u, v: u.grad.dot(v.grad)).Integrate_e(fld1))[e]
+                    lines.append(f"gg {N.shape[0]} {N.shape[1]} 1 {dim} | " + " ".join(fs(v) for v in wJ[e]) + " | " + " ".join(fs(v) for v in dN[e].ravel()))
+                    expect.append((real_gg, dict(elemType=et, form="grad.grad", element=e)))
+                    if dim >= 2 and et in ("TRI3", "QUAD4", "TETRA4"):
+                        real_iso = squeeze(elast.Integrate_e(Field(g, dim, mt)))[e]
+                        lines.append(f"iso {N.shape[0]} {N.shape[1]} {dim} {fs(lam)} {fs(mu)} | " + " ".join(fs(v) for v in wJ[e]) + " | " + " ".join(fs(v) for v in dN[e].ravel()))
+                        expect.append((real_iso, dict(elemType=et, form="isotropic elasticity", element=e)))
+            except Exception as ex:  # noqa: BLE001
+                # none of these calls may raise on a form of the grammar: an exception is a form that cannot be integrated
+                res.fail(f"form machinery raises matrixType={mt}", f"{type(ex).__name__}: {str(ex)[:200]}", dict(elemType=et, matrixType=str(mt)))
 
     # ---------------- WeakForms simulations vs dedicated simulations ----------------
     for et in (["TRI6", "QUAD4"] if not thorough else ["TRI3", "TRI6", "QUAD4", "QUAD8", "TETRA4", "HEXA8"]):
@@ -333,4 +342,6 @@ def main():
 
 
 if __name__ == "__main__":
-    main()
+    from tools.harness._common import run
+
+    run(main)
